@@ -255,6 +255,34 @@ def finders(repo, rep, ref):
                         what = "argument %s: constant %.4f vs fundamental polynomial at the reference JDE %.4f (d %.4f deg; sensitivity <= %.3f d/rad)" \
                             % (role, c0, exp0, d0, A)
                     verdict(rep, "R-TABLE-REL", site + ":%s.%s" % (role, kind), "arg-%s:%s" % (kind, role), upper, tol, what, lower=lower)
+            # R-EFACTOR: a term whose argument contains n*M (Sun's mean anomaly) carries the factor E^|n|
+            m_c0 = None
+            for p in ps:
+                if p is jd[0] or len(p) < 2:
+                    continue
+                expM = float(ref["M"][1]) * P_ref / 36525.0
+                if abs(((float(p[1]) - expM + 180.0) % 360.0) - 180.0) < 0.01 and abs(float(p[1])) > 0.5:
+                    m_c0 = p[0]
+            if m_c0 is not None:
+                worst = 0.0
+                worst_t = None
+                nterms = 0
+                for coef, mults, epow in pterms:
+                    nM = int(round(mults.get(m_c0, 0)))
+                    if epow is None or (nM == 0 and epow == 0):
+                        continue
+                    nterms += 1
+                    if epow != nM:
+                        # |E^a - E^b| <= |a - b| * 0.1 over |T| <= 40 centuries
+                        impact = coef * abs(epow - nM) * 0.1
+                        if impact > worst:
+                            worst, worst_t = impact, (coef, nM, epow)
+                if worst_t is None:
+                    rep.ok("R-EFACTOR", site, "%d terms containing the Sun's anomaly M carry E^|multiple of M|" % nterms, obligation=True, sample=(tg in ("new", "full")))
+                else:
+                    verdict(rep, "R-EFACTOR", site + ":E", "e-factor", worst, tol,
+                            "term with coefficient %.5f d and %d*M in its argument carries E^%d instead of E^%d (eccentricity factor of the Earth's orbit)"
+                            % (worst_t[0] / 1.1, worst_t[1], worst_t[2], worst_t[1]), lower=0.8 * worst)
             if matched < 3:
                 rep.violation("R-SIB", site, "args", "fewer than 3 argument polynomials of the finder could be tied to fundamental arguments (%d)" % matched)
             # defining argument vanishes (mod 180 for half offsets) at J0 - only where the event is a zero of it
@@ -300,15 +328,46 @@ def periodic_terms(repo, q, tg):
                     if consts:
                         mults[consts[0]] = abs(float(n))
         # other factors (E, E*E, small polynomials in t) are bounded by ~1.1
-        out.append((abs(float(coef)) * 1.1, mults))
+        epow = 0
+        amp = abs(float(coef))
+        for f in factors:
+            if f is trig[0]:
+                continue
+            base, e_ = (f[1], int(f[2][1])) if (f[0] == "pow" and f[2][0] == "num" and f[2][1].denominator == 1) else (f, 1)
+            if is_efactor(base):
+                epow += e_
+            elif f[0] == "add":
+                # explicit slowly varying coefficient (c0 + c1*t): the amplitude is |c0|; such a term has its own
+                # time dependence and is outside the E-factor rule
+                c0s = [x[1] for x in f[1:] if x[0] == "num"]
+                amp *= abs(float(c0s[0])) if c0s else 1.0
+                epow = None
+        out.append((amp * 1.1, mults, epow))
     _PT_CACHE[key] = out
     return out
+
+
+def is_efactor(t):
+    """E = 1 - 0.002516 T - 0.0000074 T^2 expressed in the lunation count: a sum whose constant term is 1 and whose other
+    coefficients are tiny"""
+    if t[0] != "add":
+        return False
+    consts = [x for x in t[1:] if x[0] == "num"]
+    if len(consts) != 1 or consts[0][1] != 1:
+        return False
+    for x in t[1:]:
+        if x[0] == "num":
+            continue
+        c, _ = T.split_coeff(x)
+        if abs(c) > 1e-3:
+            return False
+    return True
 
 
 def amplitudes(pterms, c0):
     """(sum of |coef|*multiplier over the terms containing the angle, largest single |coef|*multiplier)"""
     A = amax = 0.0
-    for coef, mults in pterms:
+    for coef, mults, _e in pterms:
         if c0 in mults:
             v = coef * mults[c0]
             A += v
